@@ -21,6 +21,15 @@ def _z(v):
     return v == "Z" or (isinstance(v, tuple) and v[1] == 0)
 
 
+def _conc(v):
+    """concrete integer of an abstract value, or None"""
+    if v == "Z":
+        return 0
+    if isinstance(v, tuple) and isinstance(v[1], int):
+        return v[1]
+    return None
+
+
 class Explorer:
     def __init__(self, fn, prog=None, source_call_id=None, tainted_calls=None, src_value="T", sticky=False):
         self.fn = fn
@@ -97,6 +106,9 @@ class Explorer:
                 if o == "!=":
                     res = not res
                 return ("C", 1 if res else 0)
+            lc, rc = _conc(l), _conc(r)
+            if lc is not None and rc is not None and o in ("|", "&", "^", "+", "-"):
+                return ("C", {"|": lc | rc, "&": lc & rc, "^": lc ^ rc, "+": lc + rc, "-": lc - rc}[o])
             if o == "|":
                 if l == "T" or r == "T":
                     return "T"
@@ -192,11 +204,20 @@ class Explorer:
         elif o == "|=":
             old = env.get(p)
             r = self.eval(ev.get("rhs"), env)
-            if r == "T" or old == "T":
+            if _conc(old) is not None and _conc(r) is not None:
+                new = ("C", _conc(old) | _conc(r))
+            elif r == "T" or old == "T":
                 new = "T" if (r == "T" or old == "T") else None
             elif _nz(r) or _nz(old):
                 new = "NZ"
-        elif o in ("++", "--", "+=", "-=", "&=", "^=", "*=", "/=", "<<=", ">>=", "%="):
+        elif o == "&=":
+            old = env.get(p)
+            r = self.eval(ev.get("rhs"), env)
+            if _conc(old) is not None and _conc(r) is not None:
+                new = ("C", _conc(old) & _conc(r))
+            elif _z(old) or _z(r):
+                new = "Z"
+        elif o in ("++", "--", "+=", "-=", "^=", "*=", "/=", "<<=", ">>=", "%="):
             new = None
         # kill sub-paths
         for key in list(env):
